@@ -55,3 +55,23 @@ add("C16", "zone (difference-bound) domain bounds obligations on every index/sli
     TB + " Int wrap-around is not modelled by the zone domain.")
 # keep engine list free of duplicates
 ENGINES[0]["serves_properties"] = sorted(set(ENGINES[0]["serves_properties"]))
+
+add("C11", "item/field bijection table from the item-list builder + finite-domain interpretation of the concern rule + guard rules for row emission and the empty-table line",
+    "Decides that the three formats are fed from one item list covering each of the 22 measurements exactly once, that a row formats / JSON v2 emits / the concern rule judges the same value with positive scale constants, the exact concern rule (overflow, alert<threshold, alert>30, stars[:int(alert)]) over all assignments of its atoms, that a row is emitted iff that rule says so, and the `No problems` / section-header conditions. Monotonicity follows from alert<threshold being the only use of the threshold; it is not observed between runs.",
+    TB)
+add("C12", "constant-table evaluation (go/types constants of the prefix literals) + guard/shape rules of FormatNumber + interval reasoning over the precision switch",
+    "Decides only the structural part of C12: the prefix tables are 1000^i / 1024^i with the standard names, values below the first prefix are printed exactly, the prefix scan keeps the largest fitting prefix, and every precision branch yields >= 3 significant digits and <= 5 characters for its whole-part interval. This is the thinnest claim: correct rounding, the half-unit bound and monotonicity over 2^64 values are numeric and NOT decided by any static argument in reach.",
+    TB + " Not decided: rounding, half-unit error bound, monotonicity (numeric properties of float formatting).")
+add("C14", "option-family inference from the registrations (which variable each pflag.Value writes) + control-dependence of each gitconfig read on !Changed(f) for the whole family + constant/alias tables",
+    "Decides that each sizer.* gitconfig read happens only when no option of the family writing the same variable was given, the documented constants of the threshold family and the short options, that gitconfig values use the options' own parsers, and that the deprecated aliases reach the same filter constructors with the same combiner. Byte-identical output of paired runs is not observed.",
+    TB + " Trusted: pflag's Changed/Set semantics.")
+add("C17", "sub-command allow-list + who-may-call scan for mutating APIs (with positive controls) + goroutine-capture classification and parent-write rule + call-graph reachability scan for nondeterminism sources + must-hold locksets and lock-order graph",
+    "Decides read-only plumbing use, absence of file-system mutation, confinement of the aggregation state to the consumer goroutine (captures classified by type, no parent write after go), absence of map-range/clock/random/environment on the report and scan paths, lock release on all exits and an acyclic class-level lock order. Positive controls in /verif/controls must fire on every run. Schedule-independence and race-freedom inside go-pipe, os/exec and the runtime are not decided.",
+    TB)
+add("C18", "stream-parameter provenance + must-hold lockset per meter field + dominance of every ticker write by the identity test inside one critical section + Start/Inc/Done bracket automaton over the scanner's CFG + per-iteration Inc counting",
+    "Decides that progress goes to the stderr stream only, that every meter field is immutable, atomic or lock-protected, that a replaced ticker goroutine can no longer print (identity test and write in one critical section; Done replaces the ticker and prints under the lock), that phases are properly bracketed on every path and every processed item is counted exactly once. Ticker timing and the equality of the printed number with the census on concrete runs are not decided.",
+    TB)
+add("C19", "who-builds-JSON rule over every MarshalJSON and the --json write + footnote numbering guard rules + pipeline-stage scan for length-capped line readers downstream of name-carrying git commands",
+    "Decides that JSON bytes come unmodified from encoding/json (object ids: hex between constant quotes), the footnote discipline (number = count+1 in the unseen-text branch, print by position, empty text no citation, every citation printed in its row), and that no 64 KiB-capped line scanner reads lines carrying path or reference names. Validity of the emitted JSON/table for concrete byte strings relies on encoding/json's escaping.",
+    TB)
+ENGINES[0]["serves_properties"] = sorted(set(ENGINES[0]["serves_properties"]))
